@@ -8,6 +8,9 @@ From Coq Require Import Lia.
 Open Scope N_scope.
 
 Section Print.
+Variable ns : bstr.
+Variable al : list (bstr * bstr).
+Variable m : bool.
 Variable inlen : N.
 Variable lexq : bstr -> list tok.
 Variable unq : bstr -> option bstr.
@@ -16,7 +19,8 @@ Variable efuel : list tok -> nat.
 Notation PE g := (lift_expr inlen parse_expr g).
 Notation IL g := (item_list inlen lexq unq parse_expr efuel g).
 Notation BT g := (begin_tag inlen lexq unq parse_expr efuel (PE g) (IL g) g).
-Notation Tag := (Tag inlen lexq unq efuel).
+Notation Tag := (Tag ns al inlen lexq unq efuel m).
+Notation CRun := (CRun ns al m).
 
 Definition CDArgs (args : list node) (ts : list tok) (args' : list node) (rest : list tok) : Prop :=
   CRun (fun g k s => directive_args (PE g) k args s) ts args' rest.
@@ -42,23 +46,22 @@ Proof. reflexivity. Qed.
 Lemma CDArgs_stop args t l :
   ((t_typ t =? pk_itemColon) || (t_typ t =? pk_itemComma)) = false -> CDArgs args (t :: l) args (t :: l).
 Proof.
-  intros Ht s Hs Hi Hm.
+  intros Ht s p0 sc0 Hs Hi Hm.
   cnext0 s Hs Hi p1 Hn1 Hs1 Hi1 Hsb1 Hib1.
-  exists (p_backup p1). repeat (split; [assumption|]). exists 1%nat. intros g k _ Hk.
+  exists (p_backup p1), sc0. repeat (split; [assumption|]). exists 1%nat. intros g k _ Hk.
   destruct k as [|k]; [lia|]. rewrite directive_args_S, Hn1. cbn [cbind]. unfold tis.
-  change pit_Colon with pk_itemColon. change pit_Comma with pk_itemComma. rewrite Ht. reflexivity.
+  change pit_Colon with pk_itemColon. change pit_Comma with pk_itemComma. rewrite Ht. cbk. reflexivity.
 Qed.
 
 Lemma CDArgs_more args t l e l2 args' rest :
   ((t_typ t =? pk_itemColon) || (t_typ t =? pk_itemComma)) = true ->
   Parses 0 l e l2 -> CDArgs (args ++ [e]) l2 args' rest -> CDArgs args (t :: l) args' rest.
 Proof.
-  intros Ht HP HL s Hs Hi Hm.
+  intros Ht HP HL s p0 sc0 Hs Hi Hm.
   cnext0 s Hs Hi p1 Hn1 Hs1 Hi1 Hsb1 Hib1.
   cexprp inlen s p1 HP Hs1 Hi1 p2 Hs2 Hi2 f1 HF1.
-  destruct (HL (set_p s p2) Hs2 Hi2 Hm) as (p' & H1 & H2 & f0 & HF).
-  change (set_p (set_p s p2) p') with (set_p s p') in HF.
-  exists p'. repeat (split; [assumption|]). exists (S (max f0 f1)). intros g k Hg Hk.
+  destruct (HL s p2 sc0 Hs2 Hi2 Hm) as (p' & sc' & H1 & H2 & f0 & HF).
+  exists p', sc'. repeat (split; [assumption|]). exists (S (max f0 f1)). intros g k Hg Hk.
   destruct k as [|k]; [lia|]. rewrite directive_args_S, Hn1. cbn [cbind]. unfold tis.
   change pit_Colon with pk_itemColon. change pit_Comma with pk_itemComma. rewrite Ht.
   rewrite (HF1 g) by lia. cbn [cbind]. apply HF; lia.
@@ -66,9 +69,9 @@ Qed.
 
 Lemma CPLoop_end p e dirs t l : t_typ t = pk_itemRightDelim -> CPLoop p e dirs (t :: l) (NPrint p e dirs) l.
 Proof.
-  intros Ht s Hs Hi Hm.
+  intros Ht s p0 sc0 Hs Hi Hm.
   cnext0 s Hs Hi p1 Hn1 Hs1 Hi1 Hsb1 Hib1.
-  exists p1. repeat (split; [assumption|]). exists 1%nat. intros g k _ Hk.
+  exists p1, sc0. repeat (split; [assumption|]). exists 1%nat. intros g k _ Hk.
   destruct k as [|k]; [lia|]. rewrite cmd_print_loop_S, Hn1. cbn [cbind].
   rewrite (tis_typ t _ _ Ht). dec_closed. reflexivity.
 Qed.
@@ -79,14 +82,12 @@ Lemma CPLoop_dir p e dirs t id l args l2 n rest :
   CPLoop p e (dirs ++ [NDirective (t_pos t) (t_val id) args]) l2 n rest ->
   CPLoop p e dirs (t :: id :: l) n rest.
 Proof.
-  intros Ht Hid HD HL s Hs Hi Hm.
+  intros Ht Hid HD HL s p0 sc0 Hs Hi Hm.
   cnext0 s Hs Hi p1 Hn1 Hs1 Hi1 Hsb1 Hib1.
   cexpectp inlen pit_Ident x_directive s p1 Hs1 Hi1 (Hid : t_typ id = pit_Ident) p2 He2 Hs2 Hi2.
-  destruct (HD (set_p s p2) Hs2 Hi2 Hm) as (p3 & Hs3 & Hi3 & f1 & HF1).
-  change (set_p (set_p s p2) p3) with (set_p s p3) in HF1.
-  destruct (HL (set_p s p3) Hs3 Hi3 Hm) as (p' & H1 & H2 & f0 & HF).
-  change (set_p (set_p s p3) p') with (set_p s p') in HF.
-  exists p'. repeat (split; [assumption|]). exists (S (max f0 f1)). intros g k Hg Hk.
+  destruct (HD s p2 sc0 Hs2 Hi2 Hm) as (p3 & sc3 & Hs3 & Hi3 & f1 & HF1).
+  destruct (HL s p3 sc3 Hs3 Hi3 Hm) as (p' & sc' & H1 & H2 & f0 & HF).
+  exists p', sc'. repeat (split; [assumption|]). exists (S (max f0 f1)). intros g k Hg Hk.
   destruct k as [|k]; [lia|]. rewrite cmd_print_loop_S, Hn1. cbn [cbind].
   rewrite !(tis_typ t _ _ Ht). dec_closed. rewrite He2. cbn [cbind].
   rewrite (HF1 g g) by lia. cbn [cbind]. apply HF; lia.
@@ -134,12 +135,11 @@ Proof.
 Qed.
 
 (* ---- beginTag on the first item of an expression: the implicit print ---- *)
-Lemma begin_tag_implicit g k s p1 :
-  mem (t_typ k) expr_start_types = true -> c_next s = COk k (set_p s p1) ->
-  BT g s = cbind (cmd_print inlen (PE g) g k (set_p s (p_backup p1))) (fun n s' => COk (Some n) s').
+Lemma begin_tag_implicit g k s p0 sc0 p1 :
+  mem (t_typ k) expr_start_types = true -> c_next (set_ps s p0 sc0) = COk k (set_ps s p1 sc0) ->
+  BT g (set_ps s p0 sc0) = cbind (cmd_print inlen (PE g) g k (set_ps s (p_backup p1) sc0)) (fun n s' => COk (Some n) s').
 Proof.
-  intros Hmem Hn. unfold begin_tag. rewrite Hn. cbn [cbind].
-  change (c_backup (set_p s p1)) with (set_p s (p_backup p1)).
+  intros Hmem Hn. unfold begin_tag. rewrite Hn. cbn [cbind]. cbk.
   unfold mem, expr_start_types in Hmem. cbn [existsb] in Hmem.
   repeat (apply orb_true_iff in Hmem; destruct Hmem as [Hmem|Hmem]);
     try discriminate Hmem;
@@ -151,7 +151,7 @@ Theorem Tag_print p arg dirs rest k l :
   tokens_of_print (NPrint p arg dirs) ++ rest = k :: l ->
   Tag (k :: l) (NPrint p arg dirs) rest.
 Proof.
-  intros [Hwa Hwd] Hp E s Hs Hi Hm.
+  intros [Hwa Hwd] Hp E s p0 sc0 Hs Hi Hm.
   cnext0 s Hs Hi p1 Hn1 Hs1 Hi1 Hsb1 Hib1.
   (* the first item starts an expression and carries the command's position *)
   destruct (show_starts_expression sty_min arg Hwa [0%nat] (sty_min [0%nat])) as (x & lx & Ex & Hx).
@@ -173,10 +173,9 @@ Proof.
       apply child_closed; [apply Good_all | exact Hwa | reflexivity]. }
   destruct HP as (t0 & l0 & HP & HL').
   cexprp inlen s (p_backup p1) HP Hsb1 Hib1 p2 Hs2 Hi2 f1 HF1.
-  destruct (HL' (set_p s p2) Hs2 Hi2 Hm) as (p' & H1 & H2 & f0 & HF).
-  change (set_p (set_p s p2) p') with (set_p s p') in HF.
-  exists p'. repeat (split; [assumption|]). exists (max f0 f1). intros g lf Hg _.
-  rewrite (begin_tag_implicit g x s p1 Hx Hn1). unfold cmd_print.
+  destruct (HL' s p2 sc0 Hs2 Hi2 Hm) as (p' & sc' & H1 & H2 & f0 & HF).
+  exists p', sc'. repeat (split; [assumption|]). exists (max f0 f1). intros g lf Hg _.
+  rewrite (begin_tag_implicit g x s p0 sc0 p1 Hx (Hn1 s sc0)). unfold cmd_print.
   rewrite (HF1 g) by lia. cbn [cbind]. rewrite <- Hpx. rewrite (HF g g) by lia. reflexivity.
 Qed.
 End Print.
